@@ -170,7 +170,7 @@ pub fn contain(c: &(u8, u64, u64, bool, bool), obs: &mut Obs) -> CaseResult {
 }
 
 pub fn run(run: &mut Run) {
-    let n = run.cases(150_000, 10_000_000);
+    let n = run.cases(600_000, 24_000_000);
     run.sub(
         "raw",
         "x86_64::align_up/align_down on (edge-biased u64, alignment = any of the 64 powers of two (80%) or a non-power incl. 0 (20%)); oracle: u128 arithmetic (down = a - a mod A, up = least multiple >= a), panic iff non-power-of-two or rounded value >= 2^64; non-trivial = unaligned input with A>=2, overflow, or non-power alignment",
@@ -178,7 +178,7 @@ pub fn run(run: &mut Run) {
         (u64_edge(), prop_oneof![8 => pow2(), 2 => non_pow2()]),
         raw,
     );
-    let n = run.cases(150_000, 10_000_000);
+    let n = run.cases(600_000, 24_000_000);
     run.sub(
         "virt",
         "VirtAddr align_up/align_down/is_aligned on canonical addresses x alignments 2^0..2^47 (+ a non-power alignment for the panic side); oracle: greatest/least canonical multiple (a rounded value falling into the gap becomes 0xffff800000000000), panic iff overflow past 2^64; non-trivial = unaligned or boundary result",
@@ -186,7 +186,7 @@ pub fn run(run: &mut Run) {
         (canon_va(), 0u8..48, non_pow2()),
         virt,
     );
-    let n = run.cases(150_000, 10_000_000);
+    let n = run.cases(600_000, 24_000_000);
     run.sub(
         "phys",
         "PhysAddr align_up/align_down/is_aligned on addresses <2^52 x all 64 alignments; panic iff rounded value >= 2^52 or non-power alignment",
@@ -194,7 +194,7 @@ pub fn run(run: &mut Run) {
         (phys(), 0u8..64, non_pow2()),
         physc,
     );
-    let n = run.cases(150_000, 10_000_000);
+    let n = run.cases(600_000, 24_000_000);
     run.sub(
         "containing",
         "Page/PhysFrame::containing_address and from_start_address for the three sizes on canonical / <2^52 addresses (half of them pre-aligned); oracle: start aligned, start <= a < start+SIZE, from_start_address Ok(a) iff aligned; non-trivial = unaligned input",
